@@ -51,5 +51,7 @@ SEEDED = [
     ("C01-11", "C01-WRAP"),
     ("C01-12", "C01-CLI"),
     ("C01-13", "C01-REGEX"),
+    ("C01-14", "C01-CLI"),
+    ("C01-15", "C01-WRAP"),
 ]
 MUTANTS = list(MUTANTS) + [_P("seed-" + sid, _os.path.join(_SEEDS, sid, "patch.diff"), rule) for sid, rule in SEEDED if _os.path.exists(_os.path.join(_SEEDS, sid, "patch.diff"))]
